@@ -13,7 +13,7 @@
    map order.  The typed-decoding fields of [compose_wire W1 W2] are literally those of W2. *)
 From Coq Require Import List NArith ZArith Bool Lia Permutation.
 From Verif Require Import Base.Outcome Gen.Consts Wire.Item Generic.Types Generic.Enc Generic.Dec C01.Model C01.Proofs C11.Corr C15.Model C15.Proofs.
-From Verif Require Import C01.ComposeSimple C01.ComposeMsgpack C01.ComposeCbor C01.ComposeCborTime C01.ComposeBinc C15.Concrete.
+From Verif Require Import C01.ComposeSimple C01.ComposeMsgpack C01.ComposeCbor C01.ComposeCborTime C01.ComposeBinc C15.Concrete C15.Cross.
 From Verif Require Wire.Cbor C10.CborSpec C10.CborConv Wire.CborEnc Wire.Msgpack Wire.MsgpackProofs Wire.MsgpackRT Wire.Simple Wire.SimpleProofs Wire.Binc Wire.BincProofs.
 Import ListNotations.
 
@@ -317,6 +317,41 @@ Theorem C15_tree_cbor_rfc3339 : forall (Oc : Cbor.eopts) (D : Cbor.dopts) (O : g
 Proof. exact cbor_t_tree. Qed.
 Print Assumptions C15_tree_cbor_rfc3339.
 
+(* ---- C15_cross: every ordered pair of the concrete binary driver records, NO hypothesis on the drivers ----
+
+   [bwire W]: W is one of W_simple o D, W_msgpack Of D, W_binc e d, W_cbor Oc D (tag-1 times: zero time only),
+   W_cbor_t Oc D (TimeRFC3339), for any option vectors -- 25 ordered pairs (F, G), G = F with another handle
+   included.  The value is written through W1 (format F), decoded schema-less into the tree g, the tree is written
+   again through W2 (format G) and decoded into a zero value of t: the result is v up to the losses of F then G
+   ([norm] of the composite: float losses fn_G o fn_F, time precision tnorm_G o tnorm_F, a time written as nil by
+   either pass) and up to the order of map entries.
+   Leaf premise [cross_leaf W1 W2], decidable, on every scalar leaf i of the encoder's item:
+     leaf_ok W1 i                          F's own premise (C01);
+     leaf_ok W2 (wn W1 i), (wnk W1 i)      G's premise on what the tree holds for i, in value and key position
+                                           (e.g. SignedInteger of G with a uint64 >= 2^63 in the tree; simple's
+                                           EncZeroValuesAsNil with a zero in the tree; cbor tag-1 with a non-zero time);
+     tshape W1 i                           a time is a time (or nil) in the tree: msgpack WITHOUT WriteExt as a
+                                           source holds a time as a raw byte string, which only msgpack's
+                                           DecodeTime reads back -- excluded for G <> msgpack (and, conservatively,
+                                           for G = msgpack: that case is C15_same_msgpack). *)
+Theorem C15_cross_keeps : forall W1 W2 : wire, bwire W1 -> bwire W2 ->
+  keeps_on (with_leaf W1 (cross_leaf W1 W2)) W2.
+Proof. exact cross_keeps_on. Qed.
+Print Assumptions C15_cross_keeps.
+
+Theorem C15_cross : forall (W1 W2 : wire) (O O' : gopts) (pi : order) (t : ty) (v : gv),
+  bwire W1 -> bwire W2 ->
+  order_ok pi -> wt t v = true -> supported t = true ->
+  leaves_ok (with_leaf W1 (cross_leaf W1 W2)) (to_item O pi v) = true ->
+  (Z.of_nat (depth (to_item O pi v)) < maxdepth O)%Z ->
+  let g := wn W1 (to_item O pi v) in
+  let C := compose_wire (with_leaf W1 (cross_leaf W1 W2)) W2 in
+  plainb g = true /\ reenc O' g = g /\
+  of_item W2 O 0 t (wn W2 (reenc O' g)) = Ok (norm C O (arrange O pi v)) /\
+  veq (norm C O (arrange O pi v)) (norm C O v).
+Proof. exact cross_same. Qed.
+Print Assumptions C15_cross.
+
 (* ---- non-vacuity ---- *)
 
 (* the three-step transcoding on a nested value: id driver -> tree -> cbor-shaped driver -> typed *)
@@ -413,3 +448,37 @@ Example C15_same_concrete_nonvacuous :
   normL cbor_t_losses ex_O (GPtr (Some (GTime (time_zero_sec - 1) 999999500%N))) = GPtr None /\
   normL cbor_losses ex_O (GPtr (Some (GTime (time_zero_sec - 1) 999999500%N))) = GPtr (Some (GTime time_zero_sec 0%N)).
 Proof. cbv zeta. repeat apply conj; try (vm_compute; reflexivity); vm_compute; discriminate. Qed.
+
+(* C15_cross, both sides computed through the byte-level models: simple -> tree -> cbor (TimeRFC3339), binc -> tree ->
+   msgpack, msgpack (WriteExt) -> tree -> simple; msgpack without WriteExt as a source of a non-zero time is outside
+   the leaf premise, and the transcoding to simple then FAILS (the tree holds raw bytes, DecodeTime refuses them) *)
+Example C15_cross_nonvacuous :
+  let i := to_item ex_O ex2_pi ex2_val in
+  (let o := Simple.mkeopts false true in let D := Simple.mkdopts false false 0 in
+   let Oc := Cbor.mkeo false true false true in let Dc := Cbor.mkdo true true false 0 in
+   let W1 := W_simple o D in let W2 := W_cbor_t Oc Dc in
+   bwire W1 /\ bwire W2 /\ leaves_ok (with_leaf W1 (cross_leaf W1 W2)) i = true /\
+   (do g <- naked_run (FSimple o D) i;; do g2 <- naked_run (FCbor Oc Dc) (reenc ex_O' g);; of_item W2 ex_O 0 ex2_ty g2)
+     = Ok (norm (compose_wire (with_leaf W1 (cross_leaf W1 W2)) W2) ex_O (arrange ex_O ex2_pi ex2_val))) /\
+  (let e := Binc.Build_eopts true false in let d := Binc.Build_dopts 1024 false false in
+   let Of := Msgpack.mkeopts true true false true in let Dm := Msgpack.mkdopts true false true 0 in
+   let W1 := W_binc e d in let W2 := W_msgpack Of Dm in
+   leaves_ok (with_leaf W1 (cross_leaf W1 W2)) i = true /\
+   (do g <- naked_run (FBinc e d) i;; do g2 <- naked_run (FMsgpack Of Dm) (reenc ex_O' g);; of_item W2 ex_O 0 ex2_ty g2)
+     = Ok (norm (compose_wire (with_leaf W1 (cross_leaf W1 W2)) W2) ex_O (arrange ex_O ex2_pi ex2_val))) /\
+  (let Of := Msgpack.mkeopts true false false false in let Dm := Msgpack.mkdopts true false false 0 in
+   let o := Simple.mkeopts false false in let D := Simple.mkdopts true false 0 in
+   let W1 := W_msgpack Of Dm in let W2 := W_simple o D in
+   leaves_ok (with_leaf W1 (cross_leaf W1 W2)) i = true /\
+   (do g <- naked_run (FMsgpack Of Dm) i;; do g2 <- naked_run (FSimple o D) (reenc ex_O' g);; of_item W2 ex_O 0 ex2_ty g2)
+     = Ok (norm (compose_wire (with_leaf W1 (cross_leaf W1 W2)) W2) ex_O (arrange ex_O ex2_pi ex2_val))) /\
+  (let Of := Msgpack.mkeopts false false false false in let Dm := Msgpack.mkdopts false false false 0 in
+   let o := Simple.mkeopts false false in let D := Simple.mkdopts false false 0 in
+   let W1 := W_msgpack Of Dm in let W2 := W_simple o D in
+   leaves_ok (with_leaf W1 (cross_leaf W1 W2)) i = false /\
+   (do g <- naked_run (FMsgpack Of Dm) i;; do g2 <- naked_run (FSimple o D) (reenc ex_O' g);; of_item W2 ex_O 0 ex2_ty g2)
+     = Err EBadDesc).
+Proof.
+  cbv zeta. repeat apply conj;
+    first [ apply bw_simple | apply bw_cbor_t | (vm_compute; reflexivity) ].
+Qed.
